@@ -47,6 +47,7 @@ def grammar_forms():
         TA("builtins.object"),
         TA("builtins.Ellipsis"),
         TA("builtins.tuple", True, ()),
+        TA("functools.partial"),  # stands for any class that defines __call__
     ]
 
 
@@ -109,11 +110,22 @@ def _required_args(prog, cls):
 def r15_5(prog: Program, rep: Report):
     """A routine constructor that unpacks the type arguments must be reachable only for forms with that many arguments."""
     pe = C.PredEval(prog)
+    in_u = {(a.cls, a.args) for a in C._catalogue() if a.subscripted}
     forms = [a for a in C.catalogue() if a.subscripted] + [C.TypeArg("builtins.tuple", True, ())]
     n = 0
+    observed = []
     for d in ("marshal", "unmarshal"):
         rows = C.handlers(prog, d)
         for a in forms:
+            outside = (a.cls, a.args) not in in_u and a.args != ()
+            if outside:
+                # thorough tier: generic aliases outside the universe U of the properties (e.g. Counter[str], one
+                # parameter served by the two-parameter mapping routine) are recorded, not judged
+                kind, r = C.route(prog, pe, rows, a)
+                need = _required_args(prog, r.routine) if kind == "row" and r.routine is not None else None
+                if need is not None and not (len(a.args) == need[0] if need[1] else len(a.args) >= need[0]):
+                    observed.append(f"{d}:{a.label()}->{r.routine.name}")
+                continue
             kind, r = C.route(prog, pe, rows, a)
             if kind != "row" or r.routine is None:
                 continue
@@ -124,6 +136,9 @@ def r15_5(prog: Program, rep: Report):
             have = len(a.args)
             ok = have == need[0] if need[1] else have >= need[0]
             rep.check(ok, "R15.5", f"{d}:{a.label()}->{r.routine.name}", need[2], f"{r.routine.name} unpacks {need[0]} type argument(s); {a.label()} has {have}", f"{a.label()} is routed to {r.routine.name}, whose constructor unpacks {'exactly' if need[1] else 'at least'} {need[0]} type argument(s) but the form has {have}: construction raises ValueError (not enough values to unpack)")
+    if observed:
+        rep.count("arity_mismatch_outside_U", len(observed))
+        rep.held("R15.5", "outside-U", "", "observation (not judged, outside the universe U): " + ", ".join(sorted(set(observed))[:6]), nontrivial=False)
     return n
 
 
@@ -184,7 +199,7 @@ def r15_6(prog: Program, rep: Report):
 
 
 def run(prog: Program, rep: Report, tier: str):
-    rep.rule("R15.4", "no dispatch predicate raises on a form of the annotation grammar (abstract evaluation, both tables)", floor=20)
+    rep.rule("R15.4", "no dispatch predicate raises on a form of the annotation grammar (abstract evaluation, both tables)", floor=22)
     rep.rule("R15.5", "routine constructors unpack no more type arguments than the routed forms have", floor=10)
     rep.rule("R15.6", "graph walk: non-annotation arguments are never members; a non-string reference never reaches the string resolver", floor=2)
     r15_4(prog, rep)
